@@ -266,6 +266,8 @@ class Engine(ExprMixin, StmtMixin, CallMixin):
             s = st.clone()
             s.pc.append(t >= 0)
             return IntV(t), s
+        if sort == 'Real':
+            return IntV(z3.Real(name)), st          # T8: a float treated as an exact real
         if sort == 'Bool':
             return BoolV(z3.Bool(name)), st
         if sort == 'None':
